@@ -70,8 +70,9 @@ mod verif_probe_tracker_constraints_c20 {
                 }
             }
             // binding constraints: nothing is attached beyond the limit for its gap (the limit configured for the smallest gap not below it);
-            // the second table has a single entry for a gap BEYOND the idle window (max idle 5): it governs every smaller gap
-            for table in [&[(1usize, 0.05f32), (3, 0.5)][..], &[(9, 0.05)][..]] {
+            // the second table has a single entry for a gap BEYOND the idle window (max idle 5): it governs every smaller gap; the third is
+            // written in descending gap order, the fourth repeats a gap (the first limit configured for it wins)
+            for table in [&[(1usize, 0.05f32), (3, 0.5)][..], &[(9, 0.05)][..], &[(3, 0.5), (1, 0.05)][..], &[(1, 0.05), (4, 0.6), (1, 0.9)][..]] {
             cases += 1;
             let tr = run(visual, method, Some(table), &[0, 1, 2, 3]);
             let mut last: HashMap<usize, (usize, Universal2DBox)> = HashMap::new(); // track -> (epoch, last predicted box)
